@@ -777,7 +777,7 @@ def explore_program(r: ShardResult, name: str, src: str, depth: int, variants=Tr
 QUICK_ALPHABET = ('RfU', 'Rx', 'C1')
 DEEP_ALPHABET = ('RfU', 'Rx', 'C1')
 FULL_ALPHABET = ('RfU', 'Rr', 'Rx', 'Rs', 'R2', 'C1', 'C2', 'C11', 'Cn', 'M2')   # A, Rn, Rc, C3: fixed leaves only
-K_SKELETONS = tuple(k for k, _, _ in G.SKELETONS if k.startswith('K'))
+K_SKELETONS = tuple(k for k, _, _ in G.SKELETONS if k[0] in 'KH')
 D_SKELETONS = tuple(k for k, _, _ in G.SKELETONS if k.startswith('D'))
 EXTRA_PER_SEED = 8
 
